@@ -83,6 +83,9 @@ func c03Code(canon, tight, out string) c03Prog {
 var c03Chunks = []string{"a", "é", "\n", "{", "}", "%", "#", "}}", "%}", "#}", "-", " ", "{ x", "€€", "\ufeff", "\x00", "\xff\xfe", "\r\n"}
 
 // leaves: text chunks, a print, comments, verbatim sections
+// comment bodies: a comment ends at the first "#}", whatever it contains (also an opening "{#")
+var c03CommentBodies = []string{" c ", "é\n{ }", "{{ v }} {% if %}", "", " see {# above ", "{#", "{# {# {{ ", " # } #"}
+
 func c03Leaves(inMacro bool) []c03Prog {
 	var ls []c03Prog
 	for _, c := range c03Chunks {
@@ -93,7 +96,7 @@ func c03Leaves(inMacro bool) []c03Prog {
 	} else {
 		ls = append(ls, c03Code("{{ v }}", "{{v}}", "V"))
 	}
-	for _, c := range []string{" c ", "é\n{ }", "{{ v }} {% if %}", ""} {
+	for _, c := range c03CommentBodies {
 		ls = append(ls, c03Code("{#"+c+"#}", "{#"+c+"#}", ""))
 	}
 	for _, b := range c03VerbatimBodies() {
@@ -277,7 +280,8 @@ func c03RunOrSkip(c core.Case) core.Result {
 func c03Levels(tier string) []core.Level {
 	leaves := c03Leaves(false)
 	mleaves := c03Leaves(true)
-	core8 := []c03Prog{c03Text("a"), c03Text("{"), c03Text("\n"), c03Text("}}"), leaves[14], leaves[15], leaves[20], leaves[22]}
+	nC, nK := len(c03Chunks), len(c03CommentBodies)
+	core8 := []c03Prog{c03Text("a"), c03Text("{"), c03Text("\n"), c03Text("}}"), leaves[nC], leaves[nC+1], leaves[nC+1+nK+1], leaves[nC+1+nK+3], leaves[nC+5]}
 	lv := []core.Level{
 		{Name: "delimiter-free strings: every sequence of <= 4 chunks renders to itself", Gen: func(emit func(core.Case)) {
 			var rec func(pre c03Prog, n int)
